@@ -217,7 +217,7 @@ def match_known(f, e):
 
 
 SPEC = dict(
-    props=['props/C14.v'], want={'trace'}, search=search, replay_known=replay_known, match_known=match_known,
+    props=['props/C14.v'], want={'trace', 'ast'}, search=search, replay_known=replay_known, match_known=match_known,
     rule='theorems relate the two regenerated models for 32 of the 41 common functions over all inputs. Search: all 41 common functions are called in '
          'both modules on the same generated inputs (cells incl. special angles, rotations, strains, g-vectors scaled as tools requires, all 230 groups for '
          'genhkl*/sysabs*) and compared up to the 2 pi convention; coverage of the 41 names is itself checked. distinct by (function, case).',
